@@ -80,7 +80,7 @@ def check_readouts(rec, ch, kind, rng, ctx, n_combos):
 
         # highest-density read-out
         if L - burn >= 1:
-            frac = float(rng.choice([0.95, 0.5, rng.uniform(0.05, 0.999), 0.999, 0.1]))
+            frac = float(rng.choice([0.95, 0.5, rng.uniform(0.05, 0.999), 0.999, 0.1, 0.0, 1.0, 1e-17]))   # (0 and 1: nothing / everything)
             want_n = None if rng.random() < 0.5 else int(rng.choice([1, 2, 5, rng.integers(1, max(L, 2)), L + 5]))
             ictx = {**cctx, "interval": frac, "samples": want_n}
             kw = dict(interval=frac, burn=burn, thin=thin)
